@@ -5,9 +5,9 @@
    knows no op / field the langspec lacks.  Finite domain: every row of the generated tables
    (about 200 ops, 150 fields), decided by [vm_compute] and lifted with [forallb_forall].
 
-   Two rows of PyTeal's field tables are NOT conservative on the pinned tree (known findings, see
-   known_findings.d/C04.json): [asset_params_get AssetCreator] (PyTeal: any version; AVM: 5) and
-   [vrf_verify VrfChainlink] (not an AVM field).  The theorem for the further field tables is stated
+   One row of PyTeal's field tables is NOT conservative (known finding, see known_findings.d/C04.json):
+   [vrf_verify VrfChainlink] (not an AVM field).  ([asset_params_get AssetCreator] used to be a second
+   one — PyTeal: any version, AVM: 5 — until /repo d5f70dd; the translator now reads version 5 for it.)  The theorem for the further field tables is stated
    with that explicit exception list, so it holds on the pinned tree and after a repair alike; the
    exceptions themselves are confirmed on the real compiler by the check at run time.  Field MODES are
    not in PyTeal's tables at all (no mode column): see [app_only_fields], used by the check. *)
@@ -74,7 +74,7 @@ Proof. apply forallb_forall. vm_compute. reflexivity. Qed.
 
 (* further field tables, with the explicit exception list *)
 Definition field_exceptions : list (string * string) :=
-  [ ("asset_params_get", "AssetCreator"); ("vrf_verify", "VrfChainlink") ].
+  [ ("vrf_verify", "VrfChainlink") ].
 
 Definition is_exception (fam name : string) : bool :=
   existsb (fun e => String.eqb (fst e) fam && String.eqb (snd e) name) field_exceptions.
